@@ -8,7 +8,7 @@ ENGINES = [
      "serves_properties": ["C05", "C06", "C09", "C10", "C11", "C18"],
      "kind_free_text": "TLA+ impl spec BatchProcessor.tla (TLC exhaustive + simulation), black-box monitor BPObs.tla run by TLC on traces recorded from the real processor under testing/synctest with hook-gated schedules"},
 ]
-_BP_NOTE = ("Trusted: TLC, Go 1.26 testing/synctest (virtual clock, quiescence), the 39 add-only hook lines (build tag verif), "
+_BP_NOTE = ("BPTelemetry.tla additionally binds the processor's own instruments (size / timeout trigger counts, batch_send_size, metadata_cardinality, read once per scenario) to the recorded steps (drift only). Trusted: TLC, Go 1.26 testing/synctest (virtual clock, quiescence), the 39 add-only hook lines (build tag verif), "
             "the harness' stamping/digest of items. TLC explores the design only within small constants; the real code is "
             "observed on TLC-simulated behaviours, seeded scripts and regression scenarios, not on all schedules.")
 def _bp(text, ref):
@@ -39,7 +39,7 @@ CHECKS.update({
     "C03": _otap("exploration", "Same as C01 for metrics: all five types and typeless metrics, zero counts, all-zero bucket lists, zero offsets, present-but-zero sum/min/max, exemplars with and without attributes; "
                  "data points and exemplars compared as bags, bucket lists and quantiles as sequences, by TLC.", "7 C01-C03"),
     "C04": _otap("exploration", "A sample (quick) or the full product (thorough) of the public producer options x schema-evolution histories, plus cardinality ramps crossing 255 / 65,535 / the configured limit in the overflow and reset regimes, "
-                 "all decoded by a default consumer and judged by the RoundTrip.tla oracle.", "7 C04"),
+                 "all decoded by a default consumer and judged by the RoundTrip.tla oracle; the corners of the ordering-option lattice are always part of the sample; OtapWire.tla decodes the id / parent-id columns of every small emitted batch under every ordering option (drift).", "7 C04"),
     "C07": _otap("model_checking", "The payload-level fault alphabet (relabel, drop, duplicate, swap, empty, unknown / retired schema id) is enumerated over positions x valid prefixes (0-3 batches) x optional follow-up batches for all three signals and applied to real batches; "
                  "OtapObs.tla judges no-panic, no success-while-discarding-the-main-record, and complete decoding of well-formed batches on healthy streams. "
                  "Stream.tla (stream producers / faults in flight / Consume loop with the IPC reader state machine / RelatedDataFrom dispatch) is model checked exhaustively for NoPanic, NoSilentLoss, HealthyOK, Sync and the soundness of the domain rule, "
